@@ -607,6 +607,45 @@ fn looked_at_then_edited(sh: &mut Shard) {
     }
 }
 
+/// An element taken out of a text is a text of its own: for every text of 1..4 characters (plain and wide) and
+/// every valid index, the element is kept (in a name, a list, passed to a function), then the text or the
+/// element is edited in place, and both are read.
+fn element_taken_out(sh: &mut Shard) {
+    let texts = ["a", "é", "😀", "ab", "aé", "éa", "abc", "é😀a", "abcd"];
+    for t in texts {
+        let n = t.chars().count() as i64;
+        for i in (-n)..n {
+            for variant in 0..5 {
+                if !sh.mine() {
+                    continue;
+                }
+                let take = index(id("s"), int_lit(i));
+                let prog: Vec<Stmt> = match variant {
+                    0 => vec![let_("s", string(t)), let_("c", take), es(assign(index(id("s"), int(0)), string("#"))), es(array(vec![id("c"), id("s")]))],
+                    1 => vec![let_("s", string(t)), let_("c", take), es(assign(index(id("c"), int(0)), string("#"))), es(array(vec![id("c"), id("s")]))],
+                    2 => vec![let_("s", string(t)), let_("l", array(vec![take, index(id("s"), int_lit(i))])), es(assign(index(id("s"), int_lit(-1)), string("ß"))), es(array(vec![id("l"), id("s")]))],
+                    3 => vec![
+                        es(func("bewerk", &["x"], vec![es(assign(index(id("x"), int(0)), string("#"))), es(id("x"))])),
+                        let_("s", string(t)),
+                        let_("r", calln("bewerk", vec![take])),
+                        es(array(vec![id("r"), id("s")])),
+                    ],
+                    _ => vec![let_("s", string(t)), let_("c", take), let_("d", index(id("c"), int(0))), es(assign(index(id("c"), int(0)), string("1"))), es(assign(index(id("d"), int(0)), string("2"))), es(array(vec![id("c"), id("d"), id("s")]))],
+                };
+                sh.begin(&|| printer::program(&prog));
+                sh.count("family:element-taken-out");
+                if let Some(r) = differential(sh, "sweep", &prog, opts()) {
+                    if !matches!(r.model.end, End::Unspec(_) | End::Diverge) {
+                        sh.nontrivial(&(ledger(), printer::program(&prog)));
+                    } else {
+                        sh.count("element-taken-out-unspecified");
+                    }
+                }
+            }
+        }
+    }
+}
+
 /// Every code point of the C08 list as the middle character of a three-character string: it is ONE character
 /// for `lengte`, for reading from both ends and for replacement, whatever its width or purpose.
 fn code_point_sweep(sh: &mut Shard) {
@@ -639,12 +678,14 @@ fn run(sh: &mut Shard) {
     code_point_sweep(sh);
     // second pass first: the cheap families again without the shadow heap (real address reuse)
     LEDGER.with(|c| c.set(false));
+    element_taken_out(sh);
     looked_at_then_edited(sh);
     strings_one_after_the_other(sh);
     length_ladder(sh);
     sweep(sh);
     self_consistency(sh);
     LEDGER.with(|c| c.set(true));
+    element_taken_out(sh);
     looked_at_then_edited(sh);
     strings_one_after_the_other(sh);
     // a literal evaluated again is pristine, whatever its earlier value went through
